@@ -1137,12 +1137,29 @@ fn append_compiled_clause(
                 .opt_arg_index_key
                 .switch_on_term_loc()
             {
-                Some(_) => {
+                Some(index_loc) => {
+                    // the outer choice instruction of an indexed subsequence sits
+                    // two instructions before the start of its first clause,
+                    // unless that clause has been retracted: then the first
+                    // clause left starts somewhere behind it, and the outer
+                    // choice instruction is the one preceding switch_on_term.
+                    let outer_loc = match &code[skeleton.clauses[lower_bound].clause_start - 2] {
+                        Instruction::DynamicElse(..)
+                        | Instruction::TryMeElse(..)
+                        | Instruction::RetryMeElse(..)
+                        | Instruction::TrustMe(..)
+                        | Instruction::DefaultRetryMeElse(..)
+                        | Instruction::DefaultTrustMe(..) => {
+                            skeleton.clauses[lower_bound].clause_start - 2
+                        }
+                        _ => index_loc - 1,
+                    };
+
                     if lower_bound == 0 {
-                        code_ptr_opt = Some(skeleton.clauses[lower_bound].clause_start - 2);
+                        code_ptr_opt = Some(outer_loc);
                     }
 
-                    find_outer_choice_instr(code, skeleton.clauses[lower_bound].clause_start - 2)
+                    find_outer_choice_instr(code, outer_loc)
                 }
                 None => {
                     if lower_bound == 0 {
